@@ -16,7 +16,11 @@ keys are distinct).
 reference (`resolvePath` / `LazyArgumentMap.Path` in martian/core/resolve.go).
 -/
 import Martian.Typing
+import Martian.TypingPipeline
+import Martian.TypingStrict
 import Proofs.Typing
+import Proofs.TypingPipeline
+import Proofs.TypingStrict
 
 namespace Props.C07
 open Martian.Json Martian.Types Martian.Typing
@@ -484,5 +488,455 @@ example :
     validCall (Γ0 .single) [(ka, .base .int), (kb, .base .int)]
       [(ka, .split (.arr (.cons (.int 1) (.cons (.int 2) .nil)))),
        (kb, .split (.arr (.cons (.int 3) (.cons .null .nil))))] = true := by decide
+
+/-! ### 5. the rejection direction, summarised: over-strictness is bounded -/
+
+/-- If the compiler rejects `e` for a parameter of type `t`, then EITHER the
+expression falls into one of the enumerated over-strict classes (`overStrict`,
+a decidable predicate: (R) a rejected reference, (S) a struct-syntax literal
+bound to a typed map / the untyped map, (U) a reference inside a literal for
+the untyped map, (X) a struct literal with an undeclared extra member – each
+met somewhere along the type-directed descent), OR the JSON value `e` denotes
+is invalid for `t`, in every store in which `e` evaluates at all. -/
+theorem rejected_invalid_or_overstrict (Γ : Env) (ρ : Store) (t : Ty) (e : Exp)
+    (hr : validExp Γ t e = false) :
+    overStrict Γ t e = true ∨ ∀ v, eval Γ ρ e = some v → valid t v = false := by
+  cases ho : overStrict Γ t e with
+  | true => exact Or.inl rfl
+  | false =>
+    refine Or.inr (fun v hev => ?_)
+    cases hv : valid t v with
+    | false => rfl
+    | true =>
+      have := validExp_complete Γ ρ t e v ho hev hv
+      rw [hr] at this
+      cases this
+
+/-- the same as a completeness statement: outside the over-strict classes every
+expression whose value validates cleanly is accepted -/
+theorem validExp_complete_outside_overstrict (Γ : Env) (ρ : Store) (t : Ty) (e : Exp) (v : J)
+    (ho : overStrict Γ t e = false) (hev : eval Γ ρ e = some v) (hv : valid t v = true) :
+    validExp Γ t e = true :=
+  validExp_complete Γ ρ t e v ho hev hv
+
+/-- non-vacuity of both alternatives, and the classes ARE over-strict: each of
+the four is inhabited by a rejected expression whose value validates -/
+example :
+    -- invalid value: a string for an int
+    (validExp (Γ0 .single) (.base .int) (.str kx) = false ∧
+      overStrict (Γ0 .single) (.base .int) (.str kx) = false ∧
+      valid (.base .int) (.str kx) = false) ∧
+    -- (X) extra member: `{a: 1, b: 2}` for `struct A(int a)`; the JSON validates
+    (validExp (Γ0 .single) tA (.map true (.cons ka (.int 1) (.cons kb (.int 2) .nil))) = false ∧
+      overStrict (Γ0 .single) tA (.map true (.cons ka (.int 1) (.cons kb (.int 2) .nil))) = true ∧
+      valid tA (.obj [(ka, .num (.int 1)), (kb, .num (.int 2))]) = true) ∧
+    -- (S) struct syntax for a typed map
+    (validExp (Γ0 .single) (.tmap (.base .int)) (.map true (.cons ka (.int 1) .nil)) = false ∧
+      overStrict (Γ0 .single) (.tmap (.base .int)) (.map true (.cons ka (.int 1) .nil)) = true ∧
+      valid (.tmap (.base .int)) (.obj [(ka, .num (.int 1))]) = true) ∧
+    -- (U) a reference inside a literal for the untyped map
+    (validExp (Γ0 .single) (.base .map) (.map false (.cons ka (.call cP [ko]) .nil)) = false ∧
+      overStrict (Γ0 .single) (.base .map) (.map false (.cons ka (.call cP [ko]) .nil)) = true) ∧
+    -- (R) a rejected reference: `self.x : W[]` for an int
+    (validExp (Γ0 .single) (.base .int) (.self kx []) = false ∧
+      overStrict (Γ0 .single) (.base .int) (.self kx []) = true) := by decide
+
+/-! ### 6. wildcard bindings -/
+
+/-- What `* = self` / `* = REF` stands for: exactly the bindings `m = REF.m`
+for the members `m` (pipeline inputs, resp. members of the struct type under
+all array / map dimensions of the reference's type) that are parameters of the
+callee. -/
+theorem wildcard_expansion_iff (Γ : Env) (params : List (Bytes × Ty)) (w : Wild)
+    (ex : List (Bytes × Bind)) (h : expandWild Γ params w = some ex) (x : Bytes) (b : Bind) :
+    (x, b) ∈ ex ↔ ∃ ms e, wildMembers Γ w = some ms ∧ (x, e) ∈ ms ∧
+      (params.lookup x).isSome = true ∧ b = .plain e :=
+  mem_expandWild Γ params w ex h x b
+
+/-- the members of `* = REF`: the reference must resolve and the type under
+its dimensions must be a struct -/
+theorem wildcard_members_ref_iff (Γ : Env) (e : Exp) (ms : List (Bytes × Exp)) :
+    wildMembers Γ (.ref e) = some ms ↔
+      ∃ t n fs, refType Γ e = some t ∧ stripDims t = .struct n fs ∧
+        ms = fs.toList.map (fun m => (m.1, refAppend e m.1)) := by
+  simp only [wildMembers]
+  cases hr : refType Γ e with
+  | none => simp
+  | some t =>
+    constructor
+    · intro h
+      simp only at h
+      cases hs : stripDims t with
+      | struct n fs =>
+        rw [hs] at h
+        simp only [Option.some.injEq] at h
+        exact ⟨t, n, fs, rfl, hs, h.symm⟩
+      | base b => rw [hs] at h; cases h
+      | user n => rw [hs] at h; cases h
+      | arr t' => rw [hs] at h; cases h
+      | tmap t' => rw [hs] at h; cases h
+    · rintro ⟨t', n, fs, ht, hs, rfl⟩
+      cases ht
+      simp [hs]
+
+/-- a wildcard over something that is not a struct (or does not resolve) is rejected -/
+theorem wildcard_not_struct_rejected (Γ : Env) (params : List (Bytes × Ty))
+    (binds : List (Bytes × Bind)) (w : Wild) (h : wildMembers Γ w = none) :
+    validCallW Γ params binds (some w) = false := by
+  simp [validCallW, checkCallW, allBinds, expandWild, h]
+
+/-- An accepted call with a wildcard: the written bindings together with the
+expansion bind every declared parameter EXACTLY ONCE (names pairwise distinct),
+each with a binding valid for the parameter's type, and bind nothing else. -/
+theorem validCallW_complete_args (Γ : Env) (params : List (Bytes × Ty)) (binds : List (Bytes × Bind))
+    (w : Option Wild) (h : validCallW Γ params binds w = true) :
+    ∃ bs, allBinds Γ params binds w = some bs ∧ (bs.map Prod.fst).Nodup ∧
+      (∀ x t, params.lookup x = some t → ∃ b, bs.lookup x = some b ∧ validBind Γ t b = true) ∧
+      (∀ x b, (x, b) ∈ bs → ∃ t, params.lookup x = some t ∧ validBind Γ t b = true) := by
+  simp only [validCallW, checkCallW] at h
+  cases ha : allBinds Γ params binds w with
+  | none => simp [ha] at h
+  | some bs =>
+    simp only [ha] at h
+    have hv : validCall Γ params bs = true := by simpa [validCall] using h
+    exact ⟨bs, rfl, checkCall_nodup Γ params bs hv,
+      fun x t hx => checkCall_bound Γ params bs hv x t hx,
+      fun x b hx => checkCall_known Γ params bs hv x b hx⟩
+
+/-- a parameter bound explicitly AND by the wildcard is rejected (`DuplicateBinding`) -/
+theorem wildcard_duplicate_rejected (Γ : Env) (params : List (Bytes × Ty)) (binds : List (Bytes × Bind))
+    (w : Wild) (ex : List (Bytes × Bind)) (hex : expandWild Γ params w = some ex)
+    (x : Bytes) (b b' : Bind) (h1 : (x, b) ∈ binds) (h2 : (x, b') ∈ ex) :
+    validCallW Γ params binds (some w) = false := by
+  cases hv : validCallW Γ params binds (some w) with
+  | false => rfl
+  | true =>
+    obtain ⟨bs, hbs, hnd, _, _⟩ := validCallW_complete_args Γ params binds (some w) hv
+    simp only [allBinds, hex, Option.some.injEq] at hbs
+    subst hbs
+    rw [List.map_append, List.nodup_append] at hnd
+    exact absurd rfl (hnd.2.2 x (List.mem_map.mpr ⟨(x, b), h1, rfl⟩) x (List.mem_map.mpr ⟨(x, b'), h2, rfl⟩))
+
+/-- a declared parameter that is neither bound explicitly nor a member of the
+wildcard's struct is reported missing (`ArgumentNotSuppliedError`) -/
+theorem wildcard_missing_member_rejected (Γ : Env) (params : List (Bytes × Ty))
+    (binds : List (Bytes × Bind)) (w : Wild) (ms : List (Bytes × Exp))
+    (hms : wildMembers Γ w = some ms) (x : Bytes) (t : Ty) (hp : params.lookup x = some t)
+    (hb : binds.lookup x = none) (hm : ∀ m ∈ ms, m.1 ≠ x) :
+    validCallW Γ params binds (some w) = false := by
+  cases hv : validCallW Γ params binds (some w) with
+  | false => rfl
+  | true =>
+    obtain ⟨bs, hbs, _, hall, _⟩ := validCallW_complete_args Γ params binds (some w) hv
+    simp only [allBinds, expandWild, hms, Option.some.injEq] at hbs
+    subst hbs
+    obtain ⟨b, hl, _⟩ := hall x t hp
+    rw [List.lookup_append, hb, Option.none_or] at hl
+    have : List.lookup x ((ms.filter fun m => (params.lookup m.1).isSome).map fun m => (m.1, Bind.plain m.2)) = none := by
+      rw [List.lookup_eq_none_iff]
+      intro p hpm
+      obtain ⟨m, hmm, rfl⟩ := List.mem_map.mp hpm
+      have := hm m (List.mem_filter.mp hmm).1
+      simpa using fun h => this h.symm
+    rw [this] at hl
+    cases hl
+
+/-- `* = self` for a callee whose parameters are the pipeline's inputs, and a
+wildcard over a call made in array mode (the members are seen one array
+dimension up, and are type-checked as such) -/
+example :
+    validCallW (Γ0 .single) [(kx, .arr tW), (km, .tmap tW)] [] (some .self) = true ∧
+    validCallW (Γ0 .arr) [(ko, .arr tW)] [] (some (.ref (.call cP []))) = true ∧
+    validCallW (Γ0 .arr) [(ko, tW)] [] (some (.ref (.call cP []))) = false ∧
+    validCallW (Γ0 .single) [(ka, .base .int), (kb, .arr (.base .file))] [] (some (.ref (.call cP [ko]))) = true ∧
+    validCallW (Γ0 .single) [(ka, .base .int), (kb, .arr (.base .file))] [(ka, .plain (.int 1))]
+      (some (.ref (.call cP [ko]))) = false ∧
+    validCallW (Γ0 .single) [(ka, .base .int), (kx, .base .int)] [] (some (.ref (.call cP [ko]))) = false ∧
+    wildMembers (Γ0 .single) (.ref (.self kx [kb])) = none := by decide
+
+/-- SOUNDNESS of a whole call (wildcard included), PARTIAL for the same reason
+as `validExp_sound_partial` (`bindHoleFree`: C17's `noHole` at every reference
+of every binding): in a conforming store every declared parameter receives –
+through its one binding, plain, rewritten to `.default`, expanded from the
+wildcard, or split – only values that, after the run time's filter, validate
+cleanly against the parameter's type. -/
+theorem call_sound_partial (Γ : Env) (ρ : Store) (params : List (Bytes × Ty))
+    (binds : List (Bytes × Bind)) (w : Option Wild)
+    (hρ : StoreOk Γ ρ) (hp : ∀ x t, params.lookup x = some t → t.wf = true)
+    (h : validCallW Γ params binds w = true) :
+    ∃ bs, allBinds Γ params binds w = some bs ∧
+      ∀ x t, params.lookup x = some t → ∃ b, bs.lookup x = some b ∧
+        (b.wf = true → bindHoleFree Γ t b = true →
+          ∃ vs, delivered Γ ρ t b = some vs ∧ ∀ v ∈ vs, valid t (filter t v).1 = true) := by
+  obtain ⟨bs, hbs, _, hall, _⟩ := validCallW_complete_args Γ params binds w h
+  refine ⟨bs, hbs, fun x t hx => ?_⟩
+  obtain ⟨b, hl, hv⟩ := hall x t hx
+  exact ⟨b, hl, fun hw hh => bind_sound Γ ρ hρ t (hp x t hx) b hw hv hh⟩
+
+example :
+    let ps : List (Bytes × Ty) := [(ka, .base .float), (kb, .arr (.base .file))]
+    validCallW (Γ0 .single) ps [] (some (.ref (.call cP [ko]))) = true ∧
+    allBinds (Γ0 .single) ps [] (some (.ref (.call cP [ko]))) =
+      some [(ka, .plain (.call cP [ko, ka])), (kb, .plain (.call cP [ko, kb]))] ∧
+    bindHoleFree (Γ0 .single) (.base .float) (.plain (.call cP [ko, ka])) = true ∧
+    delivered (Γ0 .single) ρ0 (.base .float) (.plain (.call cP [ko, ka])) = some [.num (.int 1)] := by
+  refine ⟨by decide, rfl, by decide, rfl⟩
+
+/-! ### 7. modifiers -/
+
+/-- The exact acceptance condition of `Modifiers.compile`: no modifier twice in
+`using`; `disabled` is a valid binding for a `bool` (a reference to a `bool`,
+possibly through the `.default` rewrite); a keyword modifier is not repeated in
+`using`; `local` / `preflight` / `volatile` (after `using` is folded in) only
+on stages; a preflight call has no binding that IS a reference to a call (nor
+its wildcard, nor `disabled`) and its callee has no outputs. -/
+theorem modsOk_iff (Γ : Env) (callee : Callee) (binds : List (Bytes × Bind)) (w : Option Wild)
+    (m : Mods) :
+    modsOk Γ callee binds w m = true ↔
+      ((m.usings.map ModItem.tag).eraseDups.length = (m.usings.map ModItem.tag).length ∧
+       (∀ e, usingDisabled m.usings = some e → validBind Γ (.base .bool) (.plain e) = true) ∧
+       (m.kwVolatile && (usingVal 2 m.usings).isSome) = false ∧
+       (m.kwLocal && (usingVal 0 m.usings).isSome) = false ∧
+       (m.kwPreflight && (usingVal 1 m.usings).isSome) = false ∧
+       (!callee.isStage && (effective m.kwLocal (usingVal 0 m.usings) ||
+          effective m.kwPreflight (usingVal 1 m.usings) ||
+          effective m.kwVolatile (usingVal 2 m.usings))) = false ∧
+       (effective m.kwPreflight (usingVal 1 m.usings) &&
+          (binds.any (fun ib => bindIsCallRef ib.2) || wildIsCallRef w ||
+            (match usingDisabled m.usings with | some e => isCallRef e | none => false))) = false ∧
+       (effective m.kwPreflight (usingVal 1 m.usings) && !callee.outs.toList.isEmpty) = false) := by
+  simp only [modsOk, List.isEmpty_iff]
+  exact modErrs_nil_iff Γ callee binds w m
+
+/-- SOUNDNESS of `disabled` (FULL strength – `bool` has no assignability hole):
+in a conforming store the modifier of an accepted call evaluates, and to a
+valid `bool`. -/
+theorem disabled_sound (Γ : Env) (ρ : Store) (callee : Callee) (binds : List (Bytes × Bind))
+    (w : Option Wild) (m : Mods) (e : Exp) (hρ : StoreOk Γ ρ) (he : e.wf = true)
+    (hm : modsOk Γ callee binds w m = true) (hd : usingDisabled m.usings = some e) :
+    ∃ v, eval Γ ρ (bindExp Γ (.base .bool) e) = some v ∧
+      valid (.base .bool) (filter (.base .bool) v).1 = true := by
+  have hv := ((modsOk_iff Γ callee binds w m).mp hm).2.1 e hd
+  exact plain_sound Γ ρ hρ (.base .bool) (by simp [Ty.wf]) e he hv (by simp [holeFree, refHoleFree]; split <;> simp [noHole])
+
+/-- PARTIAL.  Intended statement (what the run time relies on: every other
+stage of the pipeline waits for a preflight stage, so a preflight call must not
+depend on any other call): "no binding of an accepted preflight call contains a
+reference to another call".  FALSE – see `preflight_nested_ref_witness`.
+Proved: what `Modifiers.compile` does enforce – no binding IS such a reference,
+and the callee has no outputs. -/
+theorem preflight_isolated_partial (Γ : Env) (callee : Callee) (binds : List (Bytes × Bind))
+    (w : Option Wild) (m : Mods) (hm : modsOk Γ callee binds w m = true)
+    (hp : effective m.kwPreflight (usingVal 1 m.usings) = true) :
+    callee.isStage = true ∧ callee.outs = .nil ∧
+      (∀ x id p, (x, Bind.plain (.call id p)) ∉ binds) ∧
+      (∀ id p, w ≠ some (.ref (.call id p))) := by
+  obtain ⟨_, _, _, _, _, h6, h7, h8⟩ := (modsOk_iff Γ callee binds w m).mp hm
+  simp only [hp, Bool.true_and, Bool.or_true, Bool.true_or, Bool.and_true, Bool.not_eq_eq_eq_not,
+    Bool.not_false, Bool.or_eq_false_iff, List.any_eq_false] at h6 h7 h8
+  refine ⟨by simpa using h6, ?_, ?_, ?_⟩
+  · cases ho : callee.outs with
+    | nil => rfl
+    | cons k t r => simp [ho, Fields.toList] at h8
+  · intro x id p hmem
+    have := h7.1.1 (x, .plain (.call id p)) hmem
+    simp [bindIsCallRef, isCallRef] at this
+  · intro id p hw
+    have := h7.1.2
+    simp [hw, wildIsCallRef, isCallRef] at this
+
+/-- negative witness of the intended preflight statement: `call preflight
+PRE(xs = [PROD.a])` is accepted (the reference sits inside an array literal).
+Replayed on the real compiler every run (known finding
+C07:preflight-nested-call-ref; observed at run time: mrp dies with a stack
+overflow in the prenode cycle). -/
+theorem preflight_nested_ref_witness :
+    let prod : CallSig := { name := cP, mode := .single, src := none, outs := .cons ka (.base .int) .nil }
+    let Γ : Env := { self := [(ka, .base .int)], calls := [(cP, prod)] }
+    let pre : Callee := { name := kx, isStage := true, params := [(kx, .arr (.base .int))], outs := .nil }
+    let binds : List (Bytes × Bind) := [(kx, .plain (.arr (.cons (.call cP [ka]) .nil)))]
+    let m : Mods := { kwLocal := false, kwPreflight := true, kwVolatile := false, usings := [] }
+    modsOk Γ pre binds none m = true ∧ validCallW Γ pre.params binds none = true ∧
+      (Exp.arr (.cons (.call cP [ka]) .nil)).hasRef = true := by decide
+
+example :
+    let st : Callee := { name := kx, isStage := true, params := [], outs := .nil }
+    let pl : Callee := { name := kx, isStage := false, params := [], outs := .nil }
+    modsOk (Γ0 .single) st [] none { kwLocal := true, kwPreflight := false, kwVolatile := false, usings := [.vol true] } = true ∧
+    modErrs (Γ0 .single) st [] none { kwLocal := true, kwPreflight := false, kwVolatile := false, usings := [.loc false] } = [.conflict] ∧
+    modErrs (Γ0 .single) pl [] none { kwLocal := false, kwPreflight := false, kwVolatile := true, usings := [] } = [.unsupported] ∧
+    modErrs (Γ0 .single) st [(ka, .plain (.call cP [ko]))] none { kwLocal := false, kwPreflight := false, kwVolatile := false, usings := [.pre true] } = [.preBinding] ∧
+    modErrs (Γ0 .single) st [] none { kwLocal := false, kwPreflight := false, kwVolatile := false, usings := [.dis (.call cP [ko])] } = [.type] := by decide
+
+/-! ### 8. retain lists -/
+
+/-- a stage's `retain (…)`: every name is an out parameter whose type is not `KindIsNotFile` -/
+theorem stageRetain_iff (outs : Fields) (ids : List Bytes) :
+    stageRetainOk outs ids = true ↔ ∀ id ∈ ids, ∃ t, outs.get id = some t ∧ fileKind t ≠ .notFile := by
+  simp only [stageRetainOk, List.all_eq_true]
+  constructor
+  · intro h id hid
+    have := h id hid
+    cases hg : outs.get id with
+    | none => simp [hg] at this
+    | some t => exact ⟨t, rfl, by simpa [hg, retainable] using this⟩
+  · intro h id hid
+    obtain ⟨t, hg, hk⟩ := h id hid
+    simpa [hg, retainable] using hk
+
+/-- a pipeline's `retain (…)`: every reference resolves, to a type that is not `KindIsNotFile` -/
+theorem pipeRetain_iff (Γ : Env) (refs : List Exp) :
+    pipeRetainOk Γ refs = true ↔ ∀ e ∈ refs, ∃ t, refType Γ e = some t ∧ fileKind t ≠ .notFile := by
+  simp only [pipeRetainOk, List.all_eq_true]
+  constructor
+  · intro h e he
+    have := h e he
+    cases hg : refType Γ e with
+    | none => simp [hg] at this
+    | some t => exact ⟨t, rfl, by simpa [hg, retainable] using this⟩
+  · intro h e he
+    obtain ⟨t, hg, hk⟩ := h e he
+    simpa [hg, retainable] using hk
+
+example :
+    pipeRetainOk (Γ0 .single) [.call cP [ko, kb], .call cP [ko], .self kx []] = true ∧
+    pipeRetainOk (Γ0 .single) [.call cP [ko, ka]] = false ∧
+    pipeRetainOk (Γ0 .single) [.call cP [kx]] = false ∧
+    stageRetainOk (.cons ko tW (.cons km (.tmap (.base .int)) .nil)) [ko, ko] = true ∧
+    stageRetainOk (.cons ko tW (.cons km (.tmap (.base .int)) .nil)) [km] = false := by decide
+
+/-! ### 9. pipelines: calls in dependency order, return bindings, nesting -/
+
+/-- one step of `Pipeline.compile`: the call's name is new, its modifiers and
+bindings are accepted in the environment of the calls before it, and the rest is
+checked with the call added under the mode its split bindings give it -/
+theorem checkCalls_cons_iff (Γ Γ' : Env) (c : CallStm) (r : List CallStm) :
+    checkCalls Γ (c :: r) = some Γ' ↔
+      Γ.calls.lookup c.id = none ∧ ∃ sh, modsOk Γ c.callee c.binds c.wild c.mods = true ∧
+        checkCallW Γ c.callee.params c.binds c.wild = some sh ∧
+        checkCalls { Γ with calls := Γ.calls ++ [(c.id, c.sig sh)] } r = some Γ' := by
+  simp only [checkCalls, checkStm]
+  cases hl : Γ.calls.lookup c.id with
+  | some s => simp
+  | none =>
+    simp only [Option.isSome_none, Bool.false_eq_true, if_false, true_and]
+    cases hm : modsOk Γ c.callee c.binds c.wild c.mods with
+    | false => simp
+    | true =>
+      simp only [if_true, true_and]
+      cases hc : checkCallW Γ c.callee.params c.binds c.wild with
+      | none => simp
+      | some sh => simp
+
+/-- MAP-CALL DIMENSIONS THROUGH NESTING: once a call `c` (of a stage or of a
+nested pipeline – only its declared outputs matter) has been accepted with
+split shape `sh`, every later binding, return binding and retain entry sees its
+output `o : t` as `t` / `t[]` / `map<t>` according to the shape (`map<…>` only
+when `t` contains no map). -/
+theorem nested_call_output_type (Γ : Env) (c : CallStm) (sh : Option SplitShape) (o : Bytes) (t : Ty)
+    (hnew : Γ.calls.lookup c.id = none) (ho : c.callee.outs.get o = some t) :
+    refType { Γ with calls := Γ.calls ++ [(c.id, c.sig sh)] } (.call c.id [o]) =
+      match sh with
+      | none => some t
+      | some (.arr _) => some (.arr t)
+      | some (.map _) => if (dims t).2 = 0 then some (.tmap t) else none := by
+  have hl : List.lookup c.id (Γ.calls ++ [(c.id, c.sig sh)]) = some (c.sig sh) := by
+    rw [List.lookup_append, hnew]; simp [List.lookup]
+  rw [mapcall_dim _ c.id o (c.sig sh) t hl (by simpa [CallStm.sig] using ho)]
+  cases sh with
+  | none => rfl
+  | some s => cases s <;> rfl
+
+/-- exact acceptance condition of a pipeline -/
+theorem validPipeline_iff (p : Pipeline) :
+    validPipeline p = true ↔
+      ∃ Γ, checkCalls { self := p.ins, calls := [] } p.calls = some Γ ∧
+        validCallW Γ p.outs.toList p.ret p.retWild = true ∧ pipeRetainOk Γ p.retain = true := by
+  simp only [validPipeline, checkPipeline, checkReturn]
+  cases hc : checkCalls { self := p.ins, calls := [] } p.calls with
+  | none => simp
+  | some Γ =>
+    cases hr : validCallW Γ p.outs.toList p.ret p.retWild with
+    | false => simp [hr]
+    | true =>
+      cases ht : pipeRetainOk Γ p.retain with
+      | false => simp [hr, ht]
+      | true => simp [hr, ht]
+
+/-- RETURN BINDINGS: each declared output of an accepted pipeline is bound
+exactly once, by a binding valid for its type, and nothing else is bound. -/
+theorem return_complete (Γ : Env) (outs : Fields) (ret : List (Bytes × Bind)) (w : Option Wild)
+    (h : checkReturn Γ outs ret w = true) :
+    ∃ bs, allBinds Γ outs.toList ret w = some bs ∧ (bs.map Prod.fst).Nodup ∧
+      (∀ x t, outs.toList.lookup x = some t → ∃ b, bs.lookup x = some b ∧ validBind Γ t b = true) ∧
+      (∀ x b, (x, b) ∈ bs → ∃ t, outs.toList.lookup x = some t ∧ validBind Γ t b = true) :=
+  validCallW_complete_args Γ outs.toList ret w h
+
+/-- SOUNDNESS ACROSS NESTING (PARTIAL: `holeFree` at every return binding, as
+in `validExp_sound_partial`).  If the values of the pipeline's inputs and of
+the calls inside it conform (`StoreOk`), then the struct of outputs an accepted
+pipeline delivers – every declared output with the filtered value of its return
+binding – is a valid value of the pipeline's output struct type: the hypothesis
+`StoreOk` made about a call in the enclosing pipeline is DISCHARGED for calls of
+pipelines.  (Return bindings are plain: the grammar has no `split` there.) -/
+theorem return_sound_partial (Γ : Env) (ρ : Store) (name : Bytes) (outs : Fields)
+    (ret : List (Bytes × Bind)) (w : Option Wild)
+    (hρ : StoreOk Γ ρ) (hwf : (Ty.struct name outs).wf = true)
+    (h : checkReturn Γ outs ret w = true) :
+    ∃ bs, allBinds Γ outs.toList ret w = some bs ∧
+      ((∀ x e, (x, Bind.plain e) ∈ bs → e.wf = true) →
+       (∀ x b, (x, b) ∈ bs → ∃ e, b = .plain e) →
+       (∀ x t e, (x, t) ∈ outs.toList → bs.lookup x = some (.plain e) → holeFree Γ t (bindExp Γ t e) = true) →
+        ∃ vs, retValue Γ ρ bs outs = some vs ∧ valid (.struct name outs) (.obj vs) = true) := by
+  obtain ⟨bs, hbs, _, hall, _⟩ := return_complete Γ outs ret w h
+  refine ⟨bs, hbs, fun hew hplain hhf => ?_⟩
+  have hwf' := Fields.wf_iff.mp (by simpa [Ty.wf] using hwf)
+  obtain ⟨vs, hvs, hkeys, hvals⟩ := retValue_sound Γ ρ hρ bs outs (by
+    intro k t hkt
+    obtain ⟨b, hl, hv⟩ := hall k t (lookup_of_mem_nodup hwf'.1 hkt)
+    obtain ⟨e, rfl⟩ := hplain k b (lookup_mem hl)
+    exact ⟨hwf'.2 k t hkt, e, hl, hew k e (lookup_mem hl), hv, hhf k t e hkt hl⟩)
+  refine ⟨vs, hvs, ?_⟩
+  simp only [valid, check, beq_iff_eq, checkFields_ok_iff]
+  intro k t hkt
+  obtain ⟨v, hmem, hv⟩ := hvals k t hkt
+  exact ⟨v, getKey_of_mem_nodup (by rw [hkeys]; exact hwf'.1) hmem, by simpa [valid] using hv⟩
+
+/-- a conforming store stays conforming when an accepted call is added with a
+value that is valid for the (lifted) struct of its outputs – the induction step
+over the calls of a pipeline -/
+theorem storeOk_extend (Γ : Env) (ρ : Store) (id : Bytes) (sig : CallSig) (v : J)
+    (hρ : StoreOk Γ ρ) (hnew : Γ.calls.lookup id = none) (hnew' : ρ.calls.lookup id = none)
+    (hv : valid sig.whole v = true) :
+    StoreOk { Γ with calls := Γ.calls ++ [(id, sig)] } { ρ with calls := ρ.calls ++ [(id, v)] } := by
+  refine ⟨hρ.1, ?_⟩
+  intro id' sig' hl
+  simp only [List.lookup_append] at hl ⊢
+  cases hg : Γ.calls.lookup id' with
+  | some s =>
+    simp only [hg, Option.some_or, Option.some.injEq] at hl
+    subst hl
+    obtain ⟨v', hv', hval⟩ := hρ.2 id' s hg
+    exact ⟨v', by simp [hv'], hval⟩
+  | none =>
+    simp only [hg, Option.none_or] at hl
+    have hid : id' = id := by
+      by_cases hq : id' = id
+      · exact hq
+      · have : (id' == id) = false := by simpa using hq
+        simp [List.lookup, this] at hl
+    subst hid
+    have : sig' = sig := by simpa [List.lookup] using hl.symm
+    subst this
+    exact ⟨v, by simp [hnew', List.lookup], hv⟩
+
+/-- a nested pipeline, map-called over a literal array: the inner pipeline
+returns `o = P.o` (`W`), the outer one sees `INNER.o : W[]` and can return
+`INNER.o.b : file[][]` -/
+example :
+    let stP : Callee := { name := cP, isStage := true, params := [], outs := .cons ko tW .nil }
+    let inner : Pipeline := { name := kx, ins := [(ka, .base .int)], outs := .cons ko tW .nil, calls := [{ id := cP, callee := stP, binds := [], wild := none, mods := noMods }], ret := [(ko, .plain (.call cP [ko]))], retWild := none, retain := [.call cP [ko, kb]] }
+    let outer : Pipeline := { name := km, ins := [], outs := .cons kb (.arr (.arr (.base .file))) .nil, calls := [{ id := kx, callee := inner.callee, binds := [(ka, .split (.arr (.cons (.int 1) (.cons (.int 2) .nil))))], wild := none, mods := noMods }], ret := [(kb, .plain (.call kx [ko, kb]))], retWild := none, retain := [] }
+    validPipeline inner = true ∧ validPipeline outer = true := by decide
 
 end Props.C07
